@@ -38,7 +38,7 @@ class Ctx:
         self.tier = tier
         self.seed = seed
         self.rng = random.Random(f"{pid}-{seed}")
-        self.t0 = time.time()
+        self.t0 = float(os.environ.get("VCHECK_T0", time.time()))
         self.evaluations = 0
         self.nontrivial = set()
         self.samples = []
@@ -144,6 +144,14 @@ def lean_obligations(ctx, extra_targets=()):
     ok, log = lake_build([f"Proofs.Properties.{pid}"] + list(extra_targets))
     res = audit_axioms(pid) if ok else {}
     bad = grep_forbidden()
+    recheck = None
+    if ok and ctx.thorough:
+        # thorough tier: independent re-check of the compiled property module by leanchecker
+        rc, out, err = sh(["lake", "env", "leanchecker", f"Proofs.Properties.{pid}"], cwd=LEAN, timeout=1800)
+        recheck = {"cmd": f"lake env leanchecker Proofs.Properties.{pid}", "rc": rc, "tail": (out + err)[-500:]}
+        if rc != 0:
+            ok = False
+            log = (log or "") + "\nleanchecker failed: " + (out + err)[-1500:]
     src = open(os.path.join(LEAN, "Proofs", "Properties", f"{pid}.lean")).read()
     names = re.findall(rf"^theorem\s+({pid}_[A-Za-z0-9_']+)", src, flags=re.M)
     discharged = [n for n in names if res.get(n, (False,))[0]] if ok and not bad else []
@@ -155,6 +163,7 @@ def lean_obligations(ctx, extra_targets=()):
         "axioms": {n: res[n][1] for n in res},
         "forbidden_hits": bad,
         "log_tail": "" if ok else log[-3000:],
+        "leanchecker": recheck,
         "wall_s": round(time.time() - t0, 2),
     }
     return ok and not bad and len(discharged) == len(names)
@@ -369,6 +378,7 @@ def finish(ctx, level_extra=None):
             "checker_cmd": f"cd lean && lake build Proofs.Properties.{pid} && lake env lean .lake/Audit_{pid}.lean  (#print axioms on every {pid}_* theorem) + grep for sorry/admit/axiom/native_decide/bv_decide",
             "trusted_base": TRUSTED_BASE,
             "proof_wall_s": ctx.proof["wall_s"],
+            "leanchecker": ctx.proof.get("leanchecker"),
         })
     cov.update(ctx.extra)
     ev = {
